@@ -290,12 +290,19 @@ theorem callOK_mapN (ν : NMap) (t : Term) (h : callOK t = true) : callOK (mapN 
       | _ => simp [callOK] at h
   | _ => simp [callOK] at h
 
+def ffreeArgs : Option TermList → Bool
+  | none => true
+  | some as => ffreeL as
+def rngArgs (lo hi : Nat) : Option TermList → Bool
+  | none => true
+  | some as => rngL lo hi as
+
 mutual
-/-- goals of the fragment before renaming: no built-in predicate but the cut, calls with atom functors, no function term -/
+/-- goals of the fragment before renaming: no built-in predicate but the cut, `fail`, `nl` and `unify`, calls with atom functors,
+    no function term -/
 def ffreeG : Goal → Bool
   | .call t => ffree t && callOK t
-  | .bip name none => name == "!"
-  | .bip _ (some _) => false
+  | .bip name args => bipAllowed name && ffreeArgs args
   | .and gs => ffreeGL gs
   | .or gs => ffreeGL gs
   | .time gs => ffreeGL gs
@@ -309,8 +316,7 @@ end
 mutual
 def rngG (lo hi : Nat) : Goal → Bool
   | .call t => rng lo hi t && callOK t
-  | .bip name none => name == "!"
-  | .bip _ (some _) => false
+  | .bip name args => bipAllowed name && rngArgs lo hi args
   | .and gs => rngGL lo hi gs
   | .or gs => rngGL lo hi gs
   | .time gs => rngGL lo hi gs
@@ -326,8 +332,10 @@ theorem rngG_mono {lo hi hi' : Nat} (h : hi ≤ hi') : ∀ g : Goal, rngG lo hi 
   | .call t, hg => by
     simp only [rngG, Bool.and_eq_true] at hg ⊢
     exact ⟨rng_mono h t hg.1, hg.2⟩
-  | .bip _ none, hg => by simpa only [rngG] using hg
-  | .bip _ (some _), hg => by simp [rngG] at hg
+  | .bip _ none, hg => by simpa only [rngG, rngArgs] using hg
+  | .bip _ (some as), hg => by
+    simp only [rngG, rngArgs, Bool.and_eq_true] at hg ⊢
+    exact ⟨hg.1, rngL_mono h as hg.2⟩
   | .and gs, hg => by simp only [rngG] at hg ⊢; exact rngGL_mono h gs hg
   | .or gs, hg => by simp only [rngG] at hg ⊢; exact rngGL_mono h gs hg
   | .time gs, hg => by simp only [rngG] at hg ⊢; exact rngGL_mono h gs hg
@@ -346,8 +354,11 @@ theorem goodG_of_rngG {lo hi : Nat} : ∀ g : Goal, rngG lo hi g = true → good
     simp only [rngG, Bool.and_eq_true] at hg
     simp only [goodG, Bool.and_eq_true]
     exact ⟨good_of_rng t hg.1, hg.2⟩
-  | .bip _ none, hg => by simpa only [rngG, goodG] using hg
-  | .bip _ (some _), hg => by simp [rngG] at hg
+  | .bip _ none, hg => by simpa only [rngG, goodG, rngArgs, goodArgs] using hg
+  | .bip _ (some as), hg => by
+    simp only [rngG, rngArgs, Bool.and_eq_true] at hg
+    simp only [goodG, goodArgs, Bool.and_eq_true]
+    exact ⟨hg.1, goodL_of_rngL as hg.2⟩
   | .and gs, hg => by simp only [rngG] at hg; simp only [goodG]; exact goodGL_of_rngGL gs hg
   | .or gs, hg => by simp only [rngG] at hg; simp only [goodG]; exact goodGL_of_rngGL gs hg
   | .time gs, hg => by simp only [rngG] at hg; simp only [goodG]; exact goodGL_of_rngGL gs hg
@@ -368,7 +379,9 @@ theorem mapG_above {ν : NMap} {ρ : String → String} {lo hi : Nat} (h : ∀ i
     simp only [rngG, Bool.and_eq_true] at hg
     simp only [mapG, mapN_above h t hg.1]
   | .bip _ none, _ => rfl
-  | .bip _ (some _), hg => by simp [rngG] at hg
+  | .bip _ (some as), hg => by
+    simp only [rngG, rngArgs, Bool.and_eq_true] at hg
+    simp only [mapG, mapNL_above h as hg.2]
   | .and gs, hg => by simp only [rngG] at hg; simp only [mapG, mapGL_above h gs hg]
   | .or gs, hg => by simp only [rngG] at hg; simp only [mapG, mapGL_above h gs hg]
   | .time gs, hg => by simp only [rngG] at hg; simp only [mapG, mapGL_above h gs hg]
@@ -400,8 +413,14 @@ theorem renameGoal_rng (lo : Nat) : ∀ (g : Goal) (st : RenSt), ffreeG g = true
   | .bip name none, st, hf, hm, r, hr => by
     simp only [renameGoal, Res.ok.injEq] at hr
     subst hr
-    exact ⟨by simpa only [ffreeG, rngG] using hf, hm, Nat.le_refl _⟩
-  | .bip _ (some _), _, hf, _, _, _ => by simp [ffreeG] at hf
+    exact ⟨by simpa only [ffreeG, rngG, ffreeArgs, rngArgs] using hf, hm, Nat.le_refl _⟩
+  | .bip name (some as), st, hf, hm, r, hr => by
+    simp only [ffreeG, ffreeArgs, Bool.and_eq_true] at hf
+    simp only [renameGoal, Res.ok.injEq] at hr
+    subst hr
+    have h1 := renameL_rng lo as st hf.2 hm
+    simp only [rngG, rngArgs, Bool.and_eq_true]
+    exact ⟨⟨hf.1, h1.1⟩, h1.2.1, h1.2.2⟩
   | .and gs, st, hf, hm, r, hr => by
     simp only [ffreeG] at hf
     simp only [renameGoal] at hr
@@ -505,8 +524,14 @@ theorem renameRule_rng (c : Nat) (r : Rule) (hr : ruleOK r) (x : Rule × RenSt) 
     | none =>
       simp only [Res.ok.injEq] at hx
       subst hx
-      exact ⟨ch, ⟨rh, hcall⟩, by simpa only [ffreeG, rngG] using hb⟩
-    | some as => simp [ffreeG] at hb
+      exact ⟨ch, ⟨rh, hcall⟩, by simpa only [ffreeG, rngG, ffreeArgs, rngArgs] using hb⟩
+    | some as =>
+      simp only [Res.ok.injEq] at hx
+      subst hx
+      simp only [ffreeG, ffreeArgs, Bool.and_eq_true] at hb
+      obtain ⟨ra, ma, ca⟩ := renameL_rng c as _ hb.2 mh
+      simp only [rngG, rngArgs, Bool.and_eq_true]
+      exact ⟨Nat.le_trans ch ca, ⟨rng_mono ca _ rh, hcall⟩, hb.1, ra⟩
   | and gs =>
     simp only [ffreeG] at hb
     cases h1 : renameGoals gs (renameTerm head ⟨[], c⟩).2 with
